@@ -469,6 +469,7 @@ type Chooser interface {
 // positions given the excluded set.
 func (g *Grammar) Generate(c Chooser, start string, budget int, anyTok func(exclude map[string]bool) string) ([]string, *Tree) {
 	var toks []string
+	bigRep := false
 	var gen func(n *Node, budget int, parent *Tree)
 	gen = func(n *Node, budget int, parent *Tree) {
 		switch n.Kind {
@@ -517,7 +518,15 @@ func (g *Grammar) Generate(c Chooser, start string, budget int, anyTok func(excl
 				cnt = 1
 			}
 			if n.Kids[0].min <= budget && budget > 0 {
-				cnt += c.Intn(3, "rep")
+				// 0..2 repetitions; once per sentence at most, a repetition count around 8, 16 or 64 (a loop that runs
+				// long enough for size thresholds inside a parser to matter)
+				switch r := c.Intn(24, "rep"); {
+				case r < 21 || bigRep:
+					cnt += r % 3
+				default:
+					bigRep = true
+					cnt += []int{9, 17, 70}[r-21]
+				}
 			}
 			for i := 0; i < cnt; i++ {
 				gen(n.Kids[0], budget, parent)
